@@ -1136,9 +1136,29 @@ func partL(keys []string) (infra string) {
 			go io.Copy(io.Discard, c)
 		}
 	}()
-	insts := []string{"a", "b", "", "c"}
-	node := func(i int) ref.RingNode { return ref.RingNode{Host: "127.0.0.1", Inst: insts[i], HasInst: insts[i] != ""} }
+	// a second endpoint: the address a destination is moved to by "modDest <route> <i> addr=..."
+	ln2, err := net.Listen("tcp", "127.0.0.1:0")
+	if err != nil {
+		return "part L: listen: " + err.Error()
+	}
+	defer ln2.Close()
+	go func() {
+		for {
+			c, err := ln2.Accept()
+			if err != nil {
+				return
+			}
+			go io.Copy(io.Discard, c)
+		}
+	}()
+	insts := []string{"a", "b", "", "c", "z"} // node 4 (instance z) lives on the second endpoint
+	node := func(i int) ref.RingNode {
+		return ref.RingNode{Host: "127.0.0.1", Inst: insts[i], HasInst: insts[i] != ""}
+	}
 	addr := func(i int) string {
+		if i == 4 {
+			return ln2.Addr().String() + ":" + insts[i]
+		}
 		if insts[i] == "" {
 			return ln.Addr().String()
 		}
@@ -1200,7 +1220,7 @@ func partL(keys []string) (infra string) {
 	for _, n := range []int{2, 3} {
 		for _, cmb := range combos(4, n) {
 			for _, perm := range perms(cmb) {
-				for variant := 0; variant <= n; variant++ { // remove index variant; variant == n: add the first node left out
+				for variant := 0; variant <= 2*n; variant++ { // remove index variant; variant == n: add the first node left out; beyond: move destination variant-n-1 to the second endpoint
 					var ds []*destination.Destination
 					for _, m := range perm {
 						ds = append(ds, realDest(addr(m)))
@@ -1223,7 +1243,17 @@ func partL(keys []string) (infra string) {
 					if variant == 0 {
 						compare(r, members, desc+" once online")
 					}
-					if variant < n {
+					if variant > n {
+						j := variant - n - 1
+						if err := r.UpdateDestination(j, map[string]string{"addr": addr(4)}); err != nil {
+							return "part L: UpdateDestination: " + err.Error()
+						}
+						if !online(ds[j]) {
+							return "part L: a destination did not come online on loopback within 60 s"
+						}
+						members[j] = 4
+						compare(r, members, fmt.Sprintf("%s after UpdateDestination(%d, addr=<second endpoint>:z)", desc, j))
+					} else if variant < n {
 						if err := r.DelDestination(variant); err != nil {
 							panic(err)
 						}
@@ -1253,7 +1283,7 @@ func partL(keys []string) (infra string) {
 			}
 		}
 	}
-	tal.sample(map[string]interface{}{"part": "L", "what": "ordered selections of 2..3 of {127.0.0.1/a, /b, /-, /c} connected to a live loopback endpoint; ring compared with Carbon's once online, after every DelDestination(i) and after Add", "keys": len(keys)})
+	tal.sample(map[string]interface{}{"part": "L", "what": "ordered selections of 2..3 of {127.0.0.1/a, /b, /-, /c} connected to a live loopback endpoint; ring compared with Carbon's once online, after every DelDestination(i), after Add, and after every UpdateDestination(i, addr=<second endpoint with instance z>)", "keys": len(keys)})
 	return ""
 }
 
